@@ -1,11 +1,15 @@
 """C07 level (b): an observation over the real UDP stack (netsim + virtual clock).
 
 Scripts are those of harness/msglayer.py (submit / datagram from a scripted peer / transport error /
-shutdown / response.cancel()) plus ["OC", t, 0] = requests[0].observation.cancel().  Request 0 is
+shutdown / response.cancel()) plus ["OC", t, 0] = requests[0].observation.cancel() and an optional
+"consumer": {"work": ticks} = an `async for` over requests[0].observation that spends `work`
+virtual ticks in its loop body per item (what it is handed is logged separately and judged by the
+oracle; it takes no part in the comparison with the model).  Request 0 is
 the observing request whose deliveries (response future, callbacks, errbacks, _stop_interest) are
 logged in program order next to the datagrams and pipe events msglayer.Runner already logs.
 `time` as seen from aiocoap.protocol is the virtual loop's clock.
 """
+import asyncio
 import logging
 
 import msglayer
@@ -72,6 +76,34 @@ class ObsRunner(msglayer.Runner):
             req.observation.register_callback(lambda m: self.dlog("cb:" + self.mstr(m)),
                                               _suppress_deprecation=True)
             req.observation.register_errback(eb, _suppress_deprecation=True)
+            cons = self.script.get("consumer")
+            if cons:
+                self.iter_log = []
+                self.iter_snapshot = None
+                work = cons["work"] * vloop.TICK
+
+                async def consume():
+                    try:
+                        async for m in req.observation:
+                            self.iter_log.append("item:" + self.mstr(m))
+                            if work:
+                                await asyncio.sleep(work)
+                        self.iter_log.append("stop")
+                    except asyncio.CancelledError:
+                        raise
+                    except Exception as e:
+                        n = _name(e)
+                        self.iter_log.append("raise:" + n)
+
+                self.consumer = self.loop.create_task(consume())
+                self.consumer.add_done_callback(lambda f: f.cancelled() or f.exception())
+
+    def state_summary(self):
+        # called by the base class just before its final clean-up (which shuts the context down)
+        if getattr(self, "iter_log", None) is not None:
+            self.iter_snapshot = list(self.iter_log)
+            self.iter_pending = not self.consumer.done()
+        return super().state_summary()
 
     def do_OC(self, ev):
         self.requests[ev[2]].observation.cancel()
@@ -82,6 +114,13 @@ class ObsRunner(msglayer.Runner):
         P.time = _LoopClock(loop)
         try:
             await super().main(loop)
+            if getattr(self, "iter_log", None) is not None:
+                if self.shut:
+                    self.iter_snapshot = list(self.iter_log)
+                    self.iter_pending = not self.consumer.done()
+                self.consumer.cancel()
+                await asyncio.gather(self.consumer, return_exceptions=True)
+                self.iter_result = (self.iter_snapshot or []) + (["pending"] if self.iter_pending else [])
         finally:
             P.time = saved
 
@@ -118,6 +157,8 @@ def run_stack(script):
         "same_tick_inputs": len(set(times)) != len(times),
         "loop_exceptions": [str(c.get("exception") or c.get("message")) for c in loop.exceptions],
         "errors": r.errors,
+        "iter": getattr(r, "iter_result", None),
+        "shutdown_error": r.shutdown_info.get("error"),
     }
 
 
@@ -138,7 +179,12 @@ def oracle_stack(script, res):
         return "exception escaped into the transport: " + errs[0], "escaped"
     if res["loop_exceptions"]:
         return "exception reached the event loop: " + res["loop_exceptions"][0], "loop-exception"
+    if res.get("shutdown_error") and sum(1 for e in script["events"] if e[0] == "X") == 1:
+        # (a second Context.shutdown() is the caller's misuse and C18's business)
+        return "Context.shutdown() raised " + res["shutdown_error"], "shutdown-raised"
     loose = any(c.startswith(("OC@", "C@")) for c in res["concrete"])
+    if loose:
+        return oracle_stack_app(script, res)
     registered = False     # the token is outstanding
     established = False
     got_first = False
@@ -166,7 +212,8 @@ def oracle_stack(script, res):
             name = "LibraryShutdown" if k == "X" else "NetworkError"
             idx = EXC_NAMES.index(name)
             if registered and not over:
-                want = [f"eb:T{idx}"] if got_first else [f"rexc:{idx}", "eb:NotObservable"]
+                # "... and with a network error on transport failure", of the initial request as well
+                want = [f"eb:T{idx}"] if got_first else [f"rexc:{idx}", f"eb:T{idx}"]
                 if dels != want:
                     return f"{tok}: expected {want}, got {dels}", "network-error"
                 over, registered = True, False
@@ -186,7 +233,7 @@ def oracle_stack(script, res):
                 and script["events"][0][7] is not False:
             # Reset of the confirmable request itself
             idx = EXC_NAMES.index("MessageError")
-            if dels != [f"rexc:{idx}", "eb:NotObservable"]:
+            if dels != [f"rexc:{idx}", f"eb:T{idx}"]:
                 return f"{tok}: Reset of the request gave {dels}", "network-error"
             over, registered = True, False
             continue
@@ -227,4 +274,83 @@ def oracle_stack(script, res):
             return f"{tok}: not fresher than the last delivered {last} but gave {dels}", "stale-delivered"
     if ebs > 1:
         return f"{ebs} termination signals", "end-count"
+    return oracle_stack_iter(res)
+
+
+def oracle_stack_app(script, res):
+    """the application cancelled the observation or the request: an observation cancelled by the
+    application is over — nothing is signalled to it afterwards, nothing is raised anywhere (checked
+    by the caller: `errors`, `loop_exceptions`) — and the response future still completes with the
+    first response / the failure unless the request itself was cancelled"""
+    obs_cancelled = req_cancelled = False
+    completed = False
+    ebs = 0
+    for tok, g in zip(res["concrete"], res["groups"][1:]):
+        k, t, f = _parse_in(tok)
+        dels = [x.split(":", 1)[1] for x in g if x.startswith("D") and not x.endswith(":stop")]
+        kinds = [d.split(":")[0] for d in dels]
+        ebs += kinds.count("eb")
+        if (obs_cancelled or req_cancelled) and [x for x in kinds if x in ("cb", "eb")]:
+            return f"{tok}: delivery {dels} after the application cancelled", "after-cancel"
+        if req_cancelled and [x for x in kinds if x in ("resp", "rexc")]:
+            return f"{tok}: delivery {dels} after the request was cancelled", "after-cancel"
+        if "resp" in kinds or "rexc" in kinds:
+            completed = True
+        if k == "OC":
+            obs_cancelled = True
+        elif k == "C" and f[0] == "0" and not completed:
+            req_cancelled = True
+        elif k == "R" and not completed and not req_cancelled:
+            remote, mcl, mtype, code, mid, token, obs, body = f
+            code = int(code)
+            if (remote == "0" and token == TOKEN and 64 <= code < 192 and mtype in ("CON", "NON", "ACK")
+                    and not script.get("_sent_after_shutdown")):
+                want = f"resp:{code}:{obs}:{body}"
+                if not dels or dels[0] != want:
+                    return (f"{tok}: the first response did not complete the response future of a "
+                            f"request whose observation was cancelled ({dels})"), "first-response"
+    if ebs > 1:
+        return f"{ebs} termination signals", "end-count"
+    return "", None
+
+
+def oracle_stack_iter(res):
+    """the `async for` consumer of the script (if any): a subsequence of what the callbacks got,
+    the latest of it obtained, the end as the observation ended"""
+    it = res.get("iter")
+    if it is None:
+        return "", None
+    cbs, ebs = [], []
+    for g in res["groups"]:
+        for x in g:
+            if x.startswith("D") and ":cb:" in x:
+                cbs.append(x.split(":cb:", 1)[1])
+            elif x.startswith("D") and ":eb:" in x:
+                ebs.append(x.split(":eb:", 1)[1])
+    items = []
+    k = 0
+    while k < len(it) and it[k].startswith("item:"):
+        items.append(it[k][5:])
+        k += 1
+    tail = it[k:]
+    if any(x.startswith("item:") for x in tail):
+        return f"consumer was handed an item after {tail[0]}", "iter-after-end"
+    j = 0
+    for m in items:
+        while j < len(cbs) and cbs[j] != m:
+            j += 1
+        if j == len(cbs):
+            return f"consumer got {items}, not a subsequence of the callbacks' {cbs}", "iter-order"
+        j += 1
+    if cbs and (not items or items[-1] != cbs[-1]):
+        return (f"the latest message the callbacks got ({cbs[-1]}) was never handed to the busy "
+                f"`async for` consumer: {it}"), "iter-latest-lost"
+    if not ebs:
+        if tail != ["pending"]:
+            return f"observation runs, the consumer ended: {tail}", "iter-end"
+        return "", None
+    e = ebs[0]
+    want = ["stop"] if e in ("NotObservable", "ObservationCancelled") else ["raise:" + EXC_NAMES[int(e[1:])]]
+    if tail != want:
+        return f"observation ended with {e}, the consumer saw {tail}", "iter-end"
     return "", None
